@@ -185,7 +185,7 @@ inline std::vector<Op> decodeWalk(Src &s, int maxOps) {
 // request is announced (fixture.hpp controlAction 1..3) - only for checks that are invariants of the state (C11)
 inline std::string runWalk(const std::vector<Op> &ops, int queueLen, StepCheck chk, Hist *h = nullptr, int mode = 0) {
     InstCfg k = statusCfg(queueLen);
-    if (mode == 1) k.controlReturns = 1; else if (mode >= 2) k.controlAction = mode - 1;
+    if (mode == 1) k.controlReturns = 1; else if (mode >= 2 && mode <= 5) k.controlAction = mode - 1; else if (mode == 6) k.errorCallbackConsumes = true;
     Inst I(k);
     Regs a = readRegs(I);
     std::vector<Op> done;
@@ -195,7 +195,7 @@ inline std::string runWalk(const std::vector<Op> &ops, int queueLen, StepCheck c
         done.push_back(ops[i]);
         std::string m = chk(a, ops[i], b, I);
         if (m.empty() && !I.invariant.empty()) m = I.invariant;
-        if (!m.empty()) return m + fmt(" at step %zu of [", i) + opsText(done) + "] state [" + regsText(b) + "]" + (mode == 1 ? " (control callback returns SCPI_RES_ERR)" : mode >= 2 ? fmt(" (control callback re-enters the library: action %d)", mode - 1) : "");
+        if (!m.empty()) return m + fmt(" at step %zu of [", i) + opsText(done) + "] state [" + regsText(b) + "]" + (mode == 1 ? " (control callback returns SCPI_RES_ERR)" : mode == 6 ? " (error callback pops the error it is told about)" : mode >= 2 ? fmt(" (control callback re-enters the library: action %d)", mode - 1) : "");
         if (h) h->step((int) i, a, ops[i], b);
         a = b;
     }
